@@ -376,6 +376,7 @@ func CheckC09(r *core.Run) {
 	// 4. open-time maintenance transactions
 	traces = append(traces, openTimeLockTraces(r)...)
 
+	runSelfTestN(r, "LockTrace", "LockTrace.cfg", traces, lockMutants())
 	rejects := r.Judge(core.JudgeOpts{Module: "LockTrace", Config: "LockTrace.cfg", Timeout: 20 * time.Minute, HeapMB: 4096}, traces)
 	for _, rj := range rejects {
 		sig := "lock-trace:" + rj.Kind + ":" + fmt.Sprint(rj.Event["ev"])
